@@ -24,7 +24,10 @@ func vC13(topo, k int, symbolic bool, vlans ...uint16) {
 	schedulerplugin.VerifC13PreHeld = nondetChoice(k + 1) // 0: nothing held; i: the IP of the i-th requested range is already the pod's
 	schedulerplugin.VerifC13Restart = schedulerplugin.VerifC13PreHeld > 0 && nondetBool()
 	schedulerplugin.VerifC13Reconfigured = nondetBool() // a live reconfiguration (other VLAN ids before) preceded the scheduling
-	defer func() { schedulerplugin.VerifC13Restart, schedulerplugin.VerifC13Reconfigured = false, false }()
+	schedulerplugin.VerifC13StaleInfos = nondetBool() // the pod's incoming annotation already lists ipinfos of an earlier life
+	defer func() {
+		schedulerplugin.VerifC13Restart, schedulerplugin.VerifC13Reconfigured, schedulerplugin.VerifC13StaleInfos = false, false, false
+	}()
 	b := schedulerplugin.VerifBindForC13(topo, k, vlans...)
 	schedulerplugin.VerifC13PreHeld = 0
 	if b == nil || len(b.IPs) == 0 {
@@ -70,7 +73,7 @@ func vC13(topo, k int, symbolic bool, vlans ...uint16) {
 	_ = cniutil.CmdDel(vReq("verif-c13", dir).CmdArgs, -1)
 }
 
-// BOUND: topologies {0,1,2,3} (masks /24 and /16, two gateways, VLANs 2 and 3 -> overridden); k = 0..3 requested single-address ranges taken alternately from both ends of the address list (1..3 IPs per pod, from one or two pools), optionally one of them already held by the pod before it is scheduled, optionally with a restart of galaxy-ipam (tables rebuilt from the store) in between; optionally galaxy-ipam ran with other VLAN ids (9, 11) for the same pools before and was reconfigured live; mask / gateway / VLAN are compared with the pool definitions of the configuration, not with the tables; two VLAN ids (one per pool) symbolic over all 2^16 values each; network selection {default list, ENI network}
+// BOUND: topologies {0,1,2,3} (masks /24 and /16, two gateways, VLANs 2 and 3 -> overridden); k = 0..3 requested single-address ranges taken alternately from both ends of the address list (1..3 IPs per pod, from one or two pools), optionally one of them already held by the pod before it is scheduled, optionally with a restart of galaxy-ipam (tables rebuilt from the store) in between; optionally galaxy-ipam ran with other VLAN ids (9, 11) for the same pools before and was reconfigured live; optionally the pod's incoming args annotation already carries common.ipinfos of an earlier life (another address, VLAN 7); mask / gateway / VLAN are compared with the pool definitions of the configuration, not with the tables; two VLAN ids (one per pool) symbolic over all 2^16 values each; network selection {default list, ENI network}
 func VerifC13_q_endToEndSymbolicVlan() {
 	topo := nondetChoice(4)
 	k := nondetChoice(4)
